@@ -56,6 +56,10 @@ class Check:
     def __init__(self, pid, tier, seed, replayers=None):
         self.pid, self.tier, self.seed = pid, tier, seed
         self.t0 = time.time()
+        # sharding: VERIF_SHARD="i/n" -> this process handles the cells whose key hashes to i (yv.run --jobs merges the evidence)
+        sh = os.environ.get("VERIF_SHARD", "0/1").split("/")
+        self.shard = (int(sh[0]), int(sh[1]))
+        self.first = self.shard[0] == 0  # one-off parts (vacuity twins, CrossHair, tables) run in shard 0 only
         self.prover = solve.Prover(timeout_ms=60000 if tier == "quick" else 300000,
                                    cross=(tier == "thorough"))
         self.findings = load_findings()
@@ -80,6 +84,12 @@ class Check:
         self.vacuity = {"reach_ok": 0, "perturb_ok": 0}
         self._nrep = 0
         self.cap_violations = 25
+
+    def mine(self, key):
+        """is the cell identified by `key` handled by this shard?"""
+        import zlib
+
+        return zlib.crc32(str(key).encode()) % self.shard[1] == self.shard[0]
 
     # ---- bookkeeping ----
     def encode(self, *objs):
@@ -207,7 +217,8 @@ class Check:
         repdir = os.environ.get("VERIF_REPLAY_DIR") or os.path.join(VERIF, "replays")
         os.makedirs(repdir, exist_ok=True)
         self._nrep += 1
-        path = os.path.join(repdir, f"{self.pid}-{self._nrep}.json")
+        tag = f"s{self.shard[0]}-" if self.shard[1] > 1 else ""
+        path = os.path.join(repdir, f"{self.pid}-{tag}{self._nrep}.json")
         with open(path, "w") as f:
             json.dump({"property": self.pid, "key": key, "what": what, "kind": kind, "args": args,
                        "detail": str(detail)[:2000]}, f, indent=1, default=str)
